@@ -230,6 +230,54 @@ def check_notation(case, r: R):
                     r.fail('notation-disagrees', f'document {name} at {where}: {got!r} vs {z!r}')
 
 
+def check_mixed_notations(case, r: R):
+    """several complex numbers in different notations side by side in one dictionary / one list, in every order:
+    each must load to its own value, whatever its siblings look like"""
+    from CircuitCalculator import dump_load
+    from CircuitCalculator.Circuit.dump_load import undictify_circuit
+    import itertools
+    vals = case['values']          # [(abs, phase_rad)] x 3
+    encs, want = [], []
+    for k, (a, ph) in enumerate(vals):
+        z = a * complex(math.cos(ph), math.sin(ph))
+        form = case['forms'][k % len(case['forms'])]
+        encs.append({'cart': {'real': z.real, 'imag': z.imag}, 'rad': {'abs': a, 'phase': ph}, 'deg': {'abs': a, 'phase_deg': math.degrees(ph)}}[form])
+        want.append(z)
+    r.nt(len(set(case['forms'])) >= 2)
+    r.cls('mixed-' + '+'.join(sorted(set(case['forms']))))
+    order = case['order']
+    keys = ['V', 'Z', 'x']
+    doc = {keys[i]: snap(encs[i]) for i in order}
+    doc['l'] = [snap(encs[i]) for i in order]
+    before = snap(doc)
+    tol_ = 1e-12
+    with r.lib('undictify[mixed]'):
+        out = dump_load.deserialize(json.dumps(doc), 'json')
+        for pos, i in enumerate(order):
+            for where, got in ((f'key {keys[i]}', out[keys[i]]), (f'list item {pos}', out['l'][pos])):
+                if not isinstance(got, complex) or not close(got, want[i], tol_ * (1 + abs(vals[i][1]))):
+                    r.fail('notation-depends-on-siblings', f'{where}: {encs[i]} loaded as {got!r}, denotes {want[i]!r}; document order {[case["forms"][j % len(case["forms"])] for j in order]}')
+        out2 = dump_load.undictify_all_complex_values(doc)
+        if not same(doc, before):
+            r.fail('argument-mutated', 'undictify_all_complex_values changed its argument')
+    # the same through the circuit loader: a source value and its internal impedance in different notations
+    cdoc = {'components': [{'type': 'complex_voltage_source', 'id': 'V1', 'nodes': ['a', 'b'], 'value': {k: snap(encs[i]) for k, i in zip(('V', 'Z'), order[:2])}}]}
+    with r.lib('undictify_circuit[mixed]'):
+        c = undictify_circuit(cdoc)
+        v = c.components[0].value
+        gotV, gotZ = complex(v['V_real'], v['V_imag']), complex(v['R'], v['X'])
+        for nm, got, i in (('V', gotV, order[0]), ('Z', gotZ, order[1])):
+            if not close(got, want[i], tol_ * (1 + abs(vals[i][1]))):
+                r.fail('notation-depends-on-siblings', f'circuit loader {nm}: {encs[i]} loaded as {got!r}, denotes {want[i]!r}')
+
+
+@st.composite
+def mixed_case(draw):
+    vals = [[draw(posv), draw(st.sampled_from([0.6, 1.0, -2.0, 0.3, 2.5, -0.7]))] for _ in range(3)]
+    return {'values': vals, 'forms': draw(st.lists(st.sampled_from(['cart', 'rad', 'deg']), min_size=3, max_size=3)),
+            'order': list(draw(st.permutations([0, 1, 2])))}
+
+
 @st.composite
 def notation_case(draw):
     return {'abs': draw(posv), 'phase': draw(st.one_of(st.sampled_from([0.0, math.pi / 2, -math.pi / 2, math.pi, 1.0]), st.floats(-7, 7, allow_nan=False)))}
@@ -509,6 +557,7 @@ def cir_case(draw):
 TESTS = [
     Test('network-load', check_network_load, strategy=net_case, quick=3000, thorough=60000),
     Test('notation', check_notation, strategy=notation_case, quick=1500, thorough=20000),
+    Test('mixed-notations', check_mixed_notations, strategy=mixed_case, quick=1000, thorough=10000),
     Test('document', check_document, strategy=document_case, quick=3000, thorough=60000),
     Test('circuit-load', check_circuit_load, strategy=cir_case, quick=2000, thorough=40000),
 ]
